@@ -32,9 +32,9 @@ ASSUMPTIONS = [
 ]
 DECIDING = [("invariant", "ind_map"), ("select", "tensors"), ("combine", "bonds")]
 SUITE = ["tests/test_tensor/test_tensor_core.py",
-         "tests/test_tensor/test_tensor_1d.py",
-         "tests/test_tensor/test_tensor_2d.py",
-         "tests/test_tensor/test_tensor_arbgeom.py"]
+         "tests/test_tensor/test_tn1d/test_core.py",
+         "tests/test_tensor/test_tn2d/test_core.py",
+         "tests/test_tensor/test_tnag/test_core.py"]
 
 MANIFEST = dict(
     technique="invariant-at-a-hook monitor: every live TensorNetwork (tracked via wrappers on all construction paths) compared with a fresh scan at quiescent points of random mutation histories; selection and combine oracles",
